@@ -162,7 +162,7 @@ FIXTURES = [
     ("xyz", "water_element.xyz", False), ("xyz", "water_trajectory.xyz", True), ("pdb", "water_single.pdb", False),
     ("pdb", "ch5plus.pdb", True), ("mol2", "caffeine.mol2", False), ("sdf", "example.sdf", False),
     ("sdf", "formamide.sdf", True), ("gromacs", "water.gro", True), ("charmm", "crambin.crd", False),
-    ("poscar", "POSCAR.cubicbn_direct", False), ("cube", "h2o_5points.cube", False), ("fcidump", "FCIDUMP.molpro.h2", False),
+    ("poscar", "POSCAR.cubicbn_direct", False), ("cube", "cubegen_h2o_5points.cube", False), ("fcidump", "FCIDUMP.molpro.h2", False),
     ("gamess", "PCGamess_PUNCH.dat", False), ("gaussianinput", "water.com", False), ("wfn", "he_s_orbital.wfn", False),
     ("wfx", "h2_ub3lyp_ccpvtz.wfx", False), ("fchk", "h_sto3g.fchk", False), ("molden", "h2o.molden.input", False),
     ("molekel", "h2_sto3g.mkl", False), ("mwfn", "ch3_rohf_sto3g_g03_fchk_multiwfn3.7.mwfn", False),
